@@ -161,12 +161,28 @@ LONG = "L" * 150
 def make_stream(integ, phys, K, fs, lead_empty=False, mid_empty=False, long=False):
     with notrace():
         items = (ITEMS_T if phys == 1 else ITEMS_Q)[:K]
+        if phys == 3:
+            items = [ITEMS_Q[0], ITEMS_Q[1][:4] + (alpha.I_AX,), ITEMS_Q[2], ITEMS_Q[3][:4] + (alpha.I_AX,), ITEMS_Q[4]][:K]   # graphs: DEF, ax, ax, ax, ax -> runs
         if long:
             # long lexical forms: frames of >= 128 bytes, i.e. two-byte length prefixes
             items = [it if i == 0 else it[:3] + (("lit", LONG + str(i), None, None),) + it[4:] for i, it in enumerate(items)]
         opts = pj.make_options(phys, frame_size=fs, generalized=integ == "generic", rdf_star=integ == "generic")
         ser = pj.gen_serialize if integ == "generic" else pj.rdf_serialize
-        data = ser(items, phys, opts, entry="flat_file")
+        if phys == 3:
+            # GRAPHS physical type: graphs adapters keep the open graph across frames
+            if integ == "generic":
+                data = ser(items, phys, opts, entry="stream_frames")
+            else:
+                stream = pj.PHYS_STREAM[3].for_rdflib(opts)
+                stream.enroll()
+                frames = []
+                import itertools
+                for g, grp in itertools.groupby(items, key=lambda it: it[4]):
+                    frames += list(stream.graph(pj.terms.to_rdflib(g), [tuple(pj.terms.to_rdflib(x) for x in it[1:4]) for it in grp]))
+                tail = stream.flow.to_stream_frame()
+                data = pj.write_frames(frames + ([tail] if tail is not None else []), True)
+        else:
+            data = ser(items, phys, opts, entry="flat_file")
         if lead_empty:
             data = b"\x00\x00" + data
         if mid_empty:
